@@ -157,6 +157,7 @@ static void drain(conn_t *c) { int sv = alog_on; alog_on = 0; if (c->pfd >= 0) v
 
 static void die_wedge(const char *what);
 static conn_t *cur_conn;
+static void dirty_stack(void);
 
 /* deliver the event at c->cur (not a pause) */
 static void feed(conn_t *c) {
@@ -291,9 +292,10 @@ static void op_cfg(const char *line) {
   cfg_wait = kv(line, "wait", 0); cfg_view = kv(line, "view", 0); cfg_dsz = kv(line, "dsz", 0);
   if (kv(line, "ext", 0)) {
     /* the TightVNC file-transfer extension (security type 16), rooted in the sandbox */
-    extern int SetFtpRoot(char *path);
+    extern int SetFtpRoot(char *path); extern void EnableFileTransfer(rfbBool enable);
     rfbRegisterTightVNCFileTransferExtension();
     if (sandbox[0]) SetFtpRoot(sandbox);
+    if (kv(line, "ext", 0) == 2) EnableFileTransfer(FALSE);      /* -disablefiletransfer */
   }
   scr = vs_screen(W, H, BPP / 8);
   if (!scr) { out("cfg fail\n"); _exit(0); }
@@ -397,6 +399,7 @@ static void op_connect(conn_t *c, int pre) {
   out("connect %s ", c->name);
   if (pre) { skip_marks(c); while (c->cur < c->nev && c->ev[c->cur].kind == EV_PAUSE) { c->cur++; skip_marks(c); } if (c->cur < c->nev) feed(c); }
   errno = 0;
+  dirty_stack();
   alog_on = 1; cur_conn = c; nap_acc = 0; nap_used = 0;
   cl = rfbNewClient(scr, c->sfd);
   alog_on = 0; cur_conn = NULL;
@@ -408,8 +411,18 @@ static void op_connect(conn_t *c, int pre) {
 }
 
 /* one rfbProcessEvents call */
+/* VDRV_FILL=<byte>: scribble over the stack region the library is about to use, so that two runs with
+ * different bytes (and different ASLR, heap fill) expose output that depends on uninitialised memory */
+static int fill_byte = -1;
+static __attribute__((noinline)) void dirty_stack(void) {
+  volatile unsigned char buf[24576]; size_t i;
+  if (fill_byte < 0) return;
+  for (i = 0; i < sizeof buf; i++) buf[i] = (unsigned char)fill_byte;
+}
+
 static void pe_call(void) {
   begin_call();
+  dirty_stack();
   wedge_prefix = "pe ";
   alog_on = 1;
   rfbProcessEvents(scr, 0);
@@ -442,7 +455,7 @@ static void op_update(conn_t *c) {
   drain(c); before = c->out.n;
   scr->deferUpdateTime = 0;
   rfbMarkRectAsModified(scr, 0, 0, W, H);
-  for (k = 0; k < 3; k++) { begin_call(); rfbProcessEvents(scr, 0); drain(c); if (have_witness) vs_drain(witness.pfd, &witness.out); }
+  for (k = 0; k < 3; k++) { begin_call(); dirty_stack(); rfbProcessEvents(scr, 0); drain(c); if (have_witness) vs_drain(witness.pfd, &witness.out); }
   scr->deferUpdateTime = BIGDEFER;
   if (c->out.n >= before + 4 && c->out.p[before] == 0) n = (c->out.p[before + 2] << 8) | c->out.p[before + 3];
   out("update %s closed=%d n=%d ~bytes=%zu\n", c->name, c->gone ? 1 : 0, n, c->out.n - before);
@@ -491,8 +504,36 @@ static void op_witness(void) {
   out("witness ok=%d ~why=%s\n", ok, why);
 }
 
+/* every case starts from the same sandbox content (file-transfer cases rearrange it), with fixed time stamps:
+ * directory listings go to the peer */
+#include <ftw.h>
+static int rm_cb(const char *p, const struct stat *st, int flag, struct FTW *f) {
+  if (f->level == 0) return 0;
+  return (flag == FTW_DP || flag == FTW_D) ? rmdir(p) : unlink(p);
+}
+static void put_file(const char *name, const unsigned char *pat, size_t patn, size_t total) {
+  char p[PATH_MAX + 64]; FILE *f; size_t i; struct utimbuf t = { 1600000000, 1600000000 };
+  snprintf(p, sizeof p, "%s/%s", sandbox, name);
+  f = fopen(p, "wb"); if (!f) return;
+  for (i = 0; i < total; i++) fputc(pat[i % patn], f);
+  fclose(f); utime(p, &t);
+}
+static void reset_sandbox(void) {
+  char p[PATH_MAX + 64]; unsigned char seq[256]; int i; struct utimbuf t = { 1600000000, 1600000000 };
+  if (!sandbox[0]) return;
+  nftw(sandbox, rm_cb, 16, FTW_DEPTH | FTW_PHYS);
+  for (i = 0; i < 256; i++) seq[i] = (unsigned char)i;
+  put_file("f1.txt", (const unsigned char *)"hello file transfer\n", 20, 1000);
+  put_file("f2.bin", seq, 256, 10240);
+  snprintf(p, sizeof p, "%s/dir1", sandbox); mkdir(p, 0755);
+  put_file("dir1/f3", (const unsigned char *)"x", 1, 10);
+  utime(p, &t); utime(sandbox, &t);
+}
+
 static void run_case(char **lines, int n) {
   int i;
+  reset_sandbox();
+  if (getenv("VDRV_FILL")) fill_byte = atoi(getenv("VDRV_FILL")) & 255;
   alarm(120);   /* watchdog: loops are caught by the select counters long before */
   vs_quiet();
   for (i = 0; i < n; i++) {
@@ -519,6 +560,15 @@ static void run_case(char **lines, int n) {
     else out("?? %s\n", tok[0]);
   }
   out("~fsdenied=%d\n", fs_denied);
+  if (getenv("VDRV_DUMP")) {                 /* everything the fuzzed peers received, for the two-run comparison */
+    int k; size_t j;
+    for (k = 0; k < MAXCONN; k++) if (conns[k].used) {
+      drain(&conns[k]);
+      printf("~out %s %zu ", conns[k].name, conns[k].out.n);
+      for (j = 0; j < conns[k].out.n && j < 6000; j++) printf("%02x", conns[k].out.p[j]);
+      printf("\n"); fflush(stdout);
+    }
+  }
 }
 
 /* summarise a sanitizer report (child's stderr) as one token */
